@@ -18,9 +18,10 @@ For every bundle b of every explored history, on the document reached so far:
        in_rebuild#i - Engine.rebuild_usercode raises on entry of the i-th call (i = 1, 2) the
                     DocActions method of step k makes (the schema was already modified: the
                     schema-restore path has work to do)
-   the bundle is run with that fault.  Steps of the user-action loop are faulted on the monitored
-   engine itself (if the property holds it is unchanged afterwards, and all positions can be
-   enumerated on it); steps after the loop (auto-removals) on a fork built by replaying the history.
+   the bundle is run with that fault.  before/after/in_method faults of the user-action loop are
+   injected on the monitored engine itself (if the property holds it is unchanged afterwards, and
+   all positions can be enumerated on it); faults of steps after the loop (auto-removals) and
+   in_rebuild faults on forks built by replaying the history (at most FORK_CAP per bundle).
 
 Clauses, whenever apply_user_actions raised:
   C04.state_unchanged    snapshot (every table incl. metadata, formulas included) == old(snapshot)
@@ -40,7 +41,7 @@ from checks import C02, C08
 ALL_SEEDS = ("basic", "refs", "lookup", "summary", "twoway", "trigger", "choices", "prevnext")
 MODES = ("before", "after", "in_method", "in_rebuild#1", "in_rebuild#2")
 CAP_QUICK, CAP_THOROUGH = 60, 200
-FORK_CAP = 2          # post-loop fault positions tried per bundle (each needs a replayed fork)
+FORK_CAP = 4          # fault positions tried on replayed forks, per bundle
 
 
 class InjectedFault(Exception):
@@ -220,20 +221,31 @@ def failure_clauses(e, pre, label):
 
 
 def positions(steps, cap):
-  """Injectable (step index, mode) pairs of the user-action loop, and of the post-loop phase."""
-  main, post = [], []
+  """Injectable (step index, mode) pairs: those tried on the monitored engine itself, and those
+  tried on a replayed fork (post-loop steps and rebuild_usercode failures: when the property fails
+  there the engine is beyond repair, and on a fork the history can go on)."""
+  main, forked = [], []
   for i, s in enumerate(steps):
     if s["in_loop"] or s["rollback"]:
       continue
     for m in MODES:
-      if m.startswith("in_rebuild#") and s["rebuild"] < int(m.split("#")[1]): continue
-      (post if s["post"] else main).append((i + 1, m))
+      if m.startswith("in_rebuild#"):
+        if s["rebuild"] >= int(m.split("#")[1]): forked.append((i + 1, m))
+      elif s["post"]:
+        forked.append((i + 1, m))
+      else:
+        main.append((i + 1, m))
   if len(main) > cap:        # evenly spaced, always keeping the first and the last positions
     idx = sorted(set([0, len(main) - 1] + [round(j * (len(main) - 1) / (cap - 1)) for j in range(cap)]))
     main = [main[j] for j in idx]
-  if len(post) > FORK_CAP:
-    post = [post[0], post[-1]][:FORK_CAP]
-  return main, post
+  if len(forked) > FORK_CAP:   # one per (mode, action kind, phase) first, in step order
+    seen, pick = set(), []
+    for (k, m) in forked:
+      key = (m, steps[k - 1]["name"], steps[k - 1]["post"])
+      if key not in seen:
+        seen.add(key); pick.append((k, m))
+    forked = pick[:FORK_CAP]
+  return main, forked
 
 
 class C04Monitor(explore.Monitor):
@@ -323,11 +335,12 @@ class C04Monitor(explore.Monitor):
         else:
           st["pending"] = v[:1]
           return
-    # -- injected faults after the loop (auto-removals), each on a fork ----------------------------
+    # -- post-loop faults (auto-removals) and rebuild_usercode faults, each on a fork ---------------
     for (k, mode) in post:
       label = {"fault": "injected", "mode": mode, "step": k, "of_steps": len(tr.steps),
-               "step_action": step_desc(kinds, tr.steps[k - 1]),
-               "phase": "after the user-action loop"}
+               "step_action": step_desc(kinds, tr.steps[k - 1]), "on": "replayed fork",
+               "phase": "after the user-action loop" if tr.steps[k - 1]["post"]
+                        else "user-action loop"}
       fork = self.fork(st)
       if eng.diff_snapshots(pre, snapshot(fork)):
         continue                                  # replay did not reproduce the state: skip
@@ -389,11 +402,17 @@ class C04Monitor(explore.Monitor):
 
   def finish(self, st, e):
     stat_sink(st["stats"])
+    # explore() reports the FIRST failure of a history.  Failures of classes that are not listed as
+    # known findings go first (a new failure must never hide behind a known one); the known ones
+    # are rotated so that each of them is reported by some history.
+    known = known_classes("C04")
     out = list(st["deferred"])
-    if len(out) > 1:
-      k = st["stats"]["faults"] % len(out)
-      out = out[k:] + out[:k]
-    return out
+    new = [v for v in out if (v[0], classify(v[0], v[1])) not in known]
+    old = [v for v in out if v not in new]
+    if len(old) > 1:
+      k = st["stats"]["faults"] % len(old)
+      old = old[k:] + old[:k]
+    return new + old
 
   def nontrivial(self, st, bundle, group, exc):
     return True
@@ -414,14 +433,21 @@ def classify(clause, detail):
   symptoms = "after rollback %s, schema %s, Calculate %s, finally %s" % (
     sig.get("after_rollback"), sig.get("schema"), sig.get("calculate"), sig.get("finally"))
   if detail.get("phase") == "after the user-action loop":
-    return "failure after the user-action loop is not rolled back (%s; schema %s)" % (
-      "injected" if injected else "natural " + str(detail.get("raised")), sig.get("schema"))
+    return "failure after the user-action loop is not rolled back (%s)" % (
+      "injected fault" if injected else "natural " + str(detail.get("raised")))
   if injected and mode == "in_rebuild#2" and action == "ModifyColumn":
-    return "rebuild_usercode fails at ModifyColumn's second call: column data lost (%s)" % symptoms
+    return "rebuild_usercode fails at ModifyColumn's second call: column data lost"
   if injected and mode == "in_rebuild#1" and action == "RemoveTable":
-    return "rebuild_usercode fails in RemoveTable: rollback aborted (%s)" % symptoms
-  family = ("injected " + mode) if injected else "natural"
-  return "%s: %s" % (family, symptoms)
+    return "rebuild_usercode fails in RemoveTable: rollback aborted"
+  return symptoms
+
+
+_KNOWN = {}
+def known_classes(prop):
+  if prop not in _KNOWN:
+    _KNOWN[prop] = {(f.get("match", {}).get("obligation"), f.get("match", {}).get("class"))
+                    for f in common.load_known_findings(prop)}
+  return _KNOWN[prop]
 
 
 def stat_sink(stats):
@@ -438,7 +464,9 @@ def main():
     common.SHIM_ASSUMPTION,
     "bounded: seeded random histories over 8 seed documents; for every bundle ALL injectable fault "
     "positions (step x mode) of the user-action loop are enumerated, capped at %d per bundle in the "
-    "quick tier (%d thorough; evenly spaced when capped) and at %d post-loop positions; not a proof"
+    "quick tier (%d thorough; evenly spaced when capped); post-loop and in_rebuild positions, which "
+    "need a replayed fork each, are capped at %d per bundle (one per mode x action kind first); not "
+    "a proof"
     % (CAP_QUICK, CAP_THOROUGH, FORK_CAP),
     "fault = a Python exception (InjectedFault) raised by a wrapper of Engine.apply_doc_action, of a "
     "DocActions method or of Engine.rebuild_usercode, installed as instance attributes on the engine "
@@ -461,7 +489,9 @@ def main():
   d = tempfile.mkdtemp(prefix="verif-c04-")
   os.environ["VERIF_C04_STATS"] = d
   try:
-    explore.explore(rep, "checks.C04", "C04Monitor", n_quick=64, n_thorough=1600)
+    C02.tune_explore(6)
+    explore.explore(rep, "checks.C04", "C04Monitor", n_quick=64, n_thorough=1600,
+                    budget_quick_s=40)
     tot = {}
     for p in glob.glob(os.path.join(d, "*.jsonl")):
       for line in open(p):
